@@ -303,6 +303,29 @@ def tauClose (c : Cfg) : Nat → List State → List State
     let next := ss.flatMap (tauClose1 c)
     if next.isEmpty then ss else ss ++ tauClose c fuel next
 
+/-- Finite fingerprint of a state (all handlers live below `s.n`), used to merge equal candidates. -/
+def HPc.code : HPc → List Nat
+  | .absent => [0] | .oSetIc => [1] | .cWrite => [2]
+  | .sLoadIc k => [3, kindCode k] | .sStoreRt k => [4, kindCode k] | .sFull k => [5, kindCode k]
+  | .sDrain k => [6, kindCode k] | .sSend k => [7, kindCode k] | .oSetIcLate => [8] | .pSnap => [9]
+  | .pLoadIc sn => [10, sn] | .pReadLs sn => [11, sn] | .pEmpty sn => [12, sn] | .pAwait sn => [13, sn]
+  | .done => [14]
+where kindCode : Kind → Nat
+  | .open => 0 | .change => 1 | .save => 2 | .wait => 3
+
+def WPc.code : WPc → Nat
+  | .idle => 0 | .clrRtRecv => 1 | .setIc => 2 | .start => 3 | .chk0 => 4 | .comp false => 5 | .comp true => 6
+  | .aborted => 7 | .fin => 8 | .clrIc => 9 | .clrRt => 10 | .empty => 11 | .notify => 12
+
+def State.key (s : State) : List Nat :=
+  [s.ic.toNat, s.rt.toNat, s.chan.toNat, s.nw, (match s.ls with | .uninit => 0 | .success => 1 | .failed => 2),
+   s.latest, s.lastDone, s.wpc.code, s.snap, s.n, s.opened.toNat] ++ (List.range s.n).flatMap fun i => (s.h i).code
+
+def dedupStates (ss : List State) : List State :=
+  (ss.foldl (fun (acc : List (List Nat) × List State) s =>
+    let k := s.key
+    if acc.1.contains k then acc else (k :: acc.1, s :: acc.2)) ([], [])).2
+
 structure Ev where
   tid : Nat
   name : String
@@ -348,13 +371,13 @@ def evActs (s : State) (e : Ev) : Option (List Act) :=
     | _ => none
 
 def stepEv (c : Cfg) (ss : List State) (e : Ev) : List State :=
-  (tauClose c 6 ss).filterMap fun s =>
+  dedupStates ((dedupStates (tauClose c 6 ss)).filterMap fun s =>
     match evActs s e with
     | some as => run c s as
-    | none => none
+    | none => none)
 
 def runTrace (c : Cfg) (ss : List State) : List Ev → List State
-  | [] => tauClose c 6 ss
+  | [] => dedupStates (tauClose c 6 ss)
   | e :: es => runTrace c (stepEv c ss e) es
 
 /-- The trace is (the visible part of) a run of the model. -/
